@@ -24,6 +24,40 @@ Proof.
   destruct (negb _); [left; reflexivity|]. destruct (Z.gtb _ _); [left|right]; reflexivity.
 Qed.
 
+(* the acceptance relation as an order: reflexive, transitive, closed downwards in the minor of the request and
+   upwards in the minor of the provider; a different major or a newer minor is refused with 0 *)
+Lemma compat_refl v : version_is_compatible v v = 1.
+Proof. apply compat_iff. unfold semver_ok. lia. Qed.
+
+Lemma compat_trans a b c :
+  version_is_compatible a b = 1 -> version_is_compatible b c = 1 -> version_is_compatible a c = 1.
+Proof. rewrite !compat_iff. unfold semver_ok. lia. Qed.
+
+Lemma compat_older_request want want' have :
+  version_is_compatible want have = 1 ->
+  ix want' 0 = ix want 0 -> ix want' 1 <= ix want 1 ->
+  version_is_compatible want' have = 1.
+Proof. rewrite !compat_iff. unfold semver_ok. lia. Qed.
+
+Lemma compat_newer_provider want have have' :
+  version_is_compatible want have = 1 ->
+  ix have' 0 = ix have 0 -> ix have 1 <= ix have' 1 ->
+  version_is_compatible want have' = 1.
+Proof. rewrite !compat_iff. unfold semver_ok. lia. Qed.
+
+Lemma compat_refused want have :
+  (ix want 0 <> ix have 0 \/ ix have 1 < ix want 1) <-> version_is_compatible want have = 0.
+Proof.
+  unfold version_is_compatible.
+  destruct (Z.eqb (ix want 0) (ix have 0)) eqn:E0; cbn [negb];
+    destruct (Z.gtb (ix want 1) (ix have 1)) eqn:E1; split; intros H; try lia.
+Qed.
+
+Lemma compat_antisym_minor a b :
+  version_is_compatible a b = 1 -> version_is_compatible b a = 1 ->
+  ix a 0 = ix b 0 /\ ix a 1 = ix b 1.
+Proof. rewrite !compat_iff. unfold semver_ok. lia. Qed.
+
 Lemma compat_patch_ignored a b c c' h :
   version_is_compatible [a; b; c] h = version_is_compatible [a; b; c'] h.
 Proof. reflexivity. Qed.
